@@ -449,6 +449,7 @@ func (x *Exec) execInstr(fr *Frame, n *Node, st *State, in ssa.Instruction) *Nod
 		r := x.allocRef(n, st, "chan")
 		fr.vals[in] = Term{S: r, Sort: SInt, T: in.Type()}
 	case *ssa.MapUpdate:
+		x.atAsserts(fr, n, st, "store", []string{"mapupdate"}, in)
 		m := x.val(fr, n, st, in.Map)
 		k := x.val(fr, n, st, in.Key)
 		v := x.val(fr, n, st, in.Value)
@@ -474,7 +475,9 @@ func (x *Exec) execInstr(fr *Frame, n *Node, st *State, in ssa.Instruction) *Nod
 	case *ssa.RunDefers:
 		return x.runDefers(fr, n, st, in)
 	case *ssa.Go:
+		x.atAsserts(fr, n, st, "call", []string{"go"}, in)
 		x.havocCallee(fr, n, st, in.Common())
+		x.afterCall(&callCtx{x: x, fr: fr, n: n, st: st, instr: in, common: in.Common()}, []string{"go"})
 		x.vc.note("%s: go statement; the spawned function's effects are applied as an arbitrary write to its write set (no interleaving)", fr.fn.Name())
 	case *ssa.Send:
 		x.vc.note("%s: channel send not modelled", fr.fn.Name())
